@@ -3,6 +3,8 @@ import os, sys, json, re, subprocess, tempfile, shutil, time, hashlib, math
 from fractions import Fraction
 
 VERIF = os.path.dirname(os.path.dirname(os.path.abspath(__file__)))
+# where evidence/ and replays/ are written (the registered commands use /verif; mutant evaluation redirects it)
+OUT = os.environ.get("VERIF_OUT", VERIF)
 REPO = os.environ.get("ALGOPY_VERIF_REPO", "/repo")
 SPEC = os.path.join(VERIF, "spec")
 TLA_JAR = "/opt/veriftools/tla/tla2tools.jar"
@@ -189,7 +191,7 @@ class Reporter:
         self.assumptions = []
         self.tlc_cmds = []
         self.parts = {}
-        shutil.rmtree(os.path.join(VERIF, "replays", pid), ignore_errors=True)
+        shutil.rmtree(os.path.join(OUT, "replays", pid), ignore_errors=True)
 
     # -- coverage accounting
     def add_tlc(self, res, name):
@@ -232,14 +234,14 @@ class Reporter:
         rc = 0
         if self.violations:
             rc = 1
-            os.makedirs(os.path.join(VERIF, "replays", self.pid), exist_ok=True)
+            os.makedirs(os.path.join(OUT, "replays", self.pid), exist_ok=True)
             seen = set()
             for sig, detail in self.violations:
                 if sig in seen or detail is None:
                     continue
                 seen.add(sig)
                 h = hashlib.sha1(sig.encode()).hexdigest()[:10]
-                path = os.path.join(VERIF, "replays", self.pid, h + ".json")
+                path = os.path.join(OUT, "replays", self.pid, h + ".json")
                 with open(path, "w") as f:
                     json.dump({"property": self.pid, "signature": sig, "detail": detail}, f, indent=1, default=str)
                 print("VIOLATION property=%s replay=%s  # %s" % (self.pid, path, sig))
@@ -254,8 +256,8 @@ class Reporter:
         ev = {"property_id": self.pid, "tier": self.tier, "seed": int(self.seed), "level": "model_checking",
               "coverage": cov, "assumptions": self.assumptions, "wall_s": round(wall, 2),
               "violations": len(self.violations)}
-        os.makedirs(os.path.join(VERIF, "evidence"), exist_ok=True)
-        with open(os.path.join(VERIF, "evidence", self.pid + ".json"), "w") as f:
+        os.makedirs(os.path.join(OUT, "evidence"), exist_ok=True)
+        with open(os.path.join(OUT, "evidence", self.pid + ".json"), "w") as f:
             json.dump(ev, f, indent=1, default=str)
         print("%s %s: %d evaluations, %d distinct non-trivial, %d spec states, %d replayed/validated, %d violations, %.1fs"
               % (self.pid, self.tier, cov["evaluations"], cov["distinct_nontrivial"], cov["states"],
